@@ -464,6 +464,19 @@ def check_c08(rec):
             if after != before and not ex and name not in s['unsched']:
                 out.append(V('C08', 'frozen-server-lost-instance',
                              '%s left frozen %s (after=%s) without being marked' % (name, before, after)))
+    # Master level: a server whose presence node is gone (and whose state no operator event has set since)
+    # is down, since the moment the master was told
+    for sname, s in H.servers.items():
+        lost = s.get('lost')
+        if not lost:
+            continue
+        if s['state'] not in ('down', None):     # no record at all = never seen up = down
+            out.append(V('C08', 'presence-lost-but-server-%s' % s['state'],
+                         '%s lost its presence node (master told at t in [%.3f, %.3f]) but is recorded %s' % (
+                             sname, lost['t_lo'], lost['t_hi'], s['state'])))
+        elif s['since_hi'] is not None and s['since_hi'] > lost['t_hi'] + 1e-3:
+            out.append(V('C08', 'down-since-later-than-presence-loss',
+                         '%s lost its presence at t<=%.3f but is recorded down since %.3f' % (sname, lost['t_hi'], s['since_hi'])))
     for ev in rec['events']:
         if ev['t'] == 'evict':
             s = H.servers.get(ev['server'])
